@@ -329,6 +329,53 @@ Definition nrps_to_json (cur_schema : Z) (rid : list Z) (rs : list (list Z * cds
   JObj [(K_cds_results, JObj (map (fun p => (fst p, cdsresult_to_json (snd p))) rs));
         (K_schema_version, JInt cur_schema); (K_record_id, JStr rid)].
 
+(* ---------- what generate_domains builds (the values that are saved) ---------- *)
+(* Component(domain, cds_name): classify raises ValueError for an unknown profile, assert cds_name *)
+Definition component_of (locus : list Z) (i : Z) (h : hmm) : res component :=
+  match label_index (h_id h) with
+  | None => Err E_Value
+  | Some lab =>
+    let c := C14.Model.mkComp lab (sub_code h) i (h_qs h) in
+    if negb (C14.Model.c_classified c) then Err E_Value
+    else if C14.Model.nonempty locus then Ok (mkComponent h locus c) else Err E_Assert
+  end.
+Fixpoint components_of (locus : list Z) (i : Z) (doms : list hmm) : res (list component) :=
+  match doms with
+  | [] => Ok []
+  | h :: r => do c <- component_of locus i h; do cs <- components_of locus (i + 1) r; Ok (c :: cs)
+  end.
+
+(* a module of the C14 model (components carry the position of their domain in the gene's domain
+   list as identity) as the list-of-components value that is saved: identities renumbered to the
+   position inside the module, which is all that from_json can know *)
+Fixpoint pos_of (i : Z) (ids : list Z) (k : Z) : Z :=
+  match ids with
+  | [] => k
+  | x :: r => if x =? i then k else pos_of i r (k + 1)
+  end.
+Definition renum_comp (f : Z -> Z) (c : C14.Model.comp) : C14.Model.comp :=
+  C14.Model.mkComp (C14.Model.lab c) (C14.Model.sub c) (f (C14.Model.cid c)) (C14.Model.qstart c).
+Definition renum_module (f : Z -> Z) (m : C14.Model.module) : C14.Model.module :=
+  C14.Model.mkModule (map (renum_comp f) (C14.Model.m_comps m)) (option_map (renum_comp f) (C14.Model.m_starter m))
+    (option_map (renum_comp f) (C14.Model.m_loader m)) (map (renum_comp f) (C14.Model.m_mods m))
+    (option_map (renum_comp f) (C14.Model.m_cp m)) (option_map (renum_comp f) (C14.Model.m_end m))
+    (map (renum_comp f) (C14.Model.m_others m)) (C14.Model.m_first m) (C14.Model.m_unamb m).
+Definition canon_module (tbl : list component) (m : C14.Model.module) : cmodule :=
+  let f := fun i => pos_of i (map C14.Model.cid (C14.Model.m_comps m)) 0 in
+  mkCModule (number 0 (flat_map (pick tbl) (C14.Model.m_comps m))) (C14.Model.m_first m) (renum_module f m).
+
+(* build_modules_for_cds(domains, cds_name) as generate_domains calls it for one gene *)
+Definition nrps_build_cds (locus : list Z) (doms : list hmm) : res (list cmodule) :=
+  do comps <- components_of locus 0 doms;
+  do ms <- C14.Model.build_modules_for_cds (map co_c14 comps);
+  Ok (map (canon_module comps) ms).
+(* the CDSResult of one gene; the last loop of generate_domains keeps the modules with more than
+   one component (combine_modules across genes: C14_combine_total; the merged module is covered by
+   the general codec theorem through its reload clause) *)
+Definition nrps_cds_result (locus : list Z) (doms motifs : list hmm) : res cdsresult :=
+  do mods <- nrps_build_cds locus doms;
+  Ok (mkCDSResult doms motifs (filter (fun m => (1 <? zlen (cm_comps m))) mods)).
+
 (* ---------- TTA ---------- *)
 Definition K_tta_codons := zs "TTA codons".
 Definition K_gc_content := zs "gc_content".
@@ -638,9 +685,10 @@ Definition tool_to_json (t : tool) : jv :=
   JObj [(K_name, JStr (tl_name t)); (K_version, JStr (tl_version t)); (K_description, JStr (tl_descr t));
         (K_configuration, qualifiers_to_json (tl_conf t))].
 
-Record subann := mkSub { sa_start : Z; sa_end : Z; sa_label : list Z; sa_tool : tool;
+(* self.circular_origin is stored in the annotation (dict(vars(self)) saves it): None = linear record *)
+Record subann := mkSub { sa_origin : option Z; sa_start : Z; sa_end : Z; sa_label : list Z; sa_tool : tool;
                          sa_details : list (list Z * list (list Z)) }.
-Record protoann := mkProto { pa_cs : Z; pa_ce : Z; pa_product : list Z; pa_tool : tool;
+Record protoann := mkProto { pa_origin : option Z; pa_cs : Z; pa_ce : Z; pa_product : list Z; pa_tool : tool;
                              pa_details : list (list Z * list (list Z)); pa_nl : Z; pa_nr : Z }.
 
 (* origin: None = linear record; Some n = len(record) of a circular record *)
@@ -659,14 +707,14 @@ Definition sub_from_json (origin : option Z) (j : jv) : res subann :=
     match origin with
     | Some n => if negb (n =? 0) && (n <? 0) then Err E_Value
                 else if negb (n =? 0) && (n <? s) then Err E_Value
-                else Ok (mkSub s e label t details)
-    | None => Ok (mkSub s e label t details)
+                else Ok (mkSub origin s e label t details)
+    | None => Ok (mkSub origin s e label t details)
     end
   | _ => Err E_Unmodelled
   end.
 (* dict(vars(self)): circular_origin, start, end, label, details, tool *)
-Definition sub_to_json (origin : option Z) (a : subann) : jv :=
-  JObj [(K_circular_origin, origin_json origin); (K_start, JInt (sa_start a)); (K_end, JInt (sa_end a));
+Definition sub_to_json (a : subann) : jv :=
+  JObj [(K_circular_origin, origin_json (sa_origin a)); (K_start, JInt (sa_start a)); (K_end, JInt (sa_end a));
         (K_label, JStr (sa_label a)); (K_details, qualifiers_to_json (sa_details a));
         (K_tool, tool_to_json (sa_tool a))].
 
@@ -684,18 +732,18 @@ Definition proto_from_json (origin : option Z) (j : jv) : res protoann :=
       if ce <=? cs then Err E_Value
       else if (nl <? 0) || (nr <? 0) then Err E_Value
       else if cs - nl <? 0 then Err E_Value
-      else Ok (mkProto cs ce product t details nl nr)
+      else Ok (mkProto origin cs ce product t details nl nr)
     else
       match origin with
       | Some n => if n <? 0 then Err E_Value else if n <? cs then Err E_Value
-                  else Ok (mkProto cs ce product t details nl nr)
-      | None => Ok (mkProto cs ce product t details nl nr)
+                  else Ok (mkProto origin cs ce product t details nl nr)
+      | None => Ok (mkProto origin cs ce product t details nl nr)
       end
   | _ => Err E_Unmodelled
   end.
 (* dict(vars(self)): circular_origin, core_start, core_end, product, tool, details, neighbourhood_* *)
-Definition proto_to_json (origin : option Z) (a : protoann) : jv :=
-  JObj [(K_circular_origin, origin_json origin); (K_core_start, JInt (pa_cs a)); (K_core_end, JInt (pa_ce a));
+Definition proto_to_json (a : protoann) : jv :=
+  JObj [(K_circular_origin, origin_json (pa_origin a)); (K_core_start, JInt (pa_cs a)); (K_core_end, JInt (pa_ce a));
         (K_product, JStr (pa_product a)); (K_tool, tool_to_json (pa_tool a));
         (K_details, qualifiers_to_json (pa_details a));
         (K_neighbourhood_left, JInt (pa_nl a)); (K_neighbourhood_right, JInt (pa_nr a))].
@@ -722,10 +770,10 @@ Definition side_from_json (cur_schema : Z) (rid : list Z) (origin : option Z) (j
     end
   | _ => Err E_Unmodelled
   end.
-Definition side_to_json (cur_schema : Z) (origin : option Z) (r : sideres) : jv :=
+Definition side_to_json (cur_schema : Z) (r : sideres) : jv :=
   JObj [(K_record_id, sd_rid r); (K_schema_version, JInt cur_schema);
-        (K_protoclusters, JArr (map (proto_to_json origin) (sd_protos r)));
-        (K_subregions, JArr (map (sub_to_json origin) (sd_subs r)))].
+        (K_protoclusters, JArr (map proto_to_json (sd_protos r)));
+        (K_subregions, JArr (map sub_to_json (sd_subs r)))].
 (* sideloader.regenerate_previous_results *)
 Definition side_regen (cur_schema : Z) (rid : list Z) (origin : option Z) (j : jv) : res (option sideres) :=
   if negb (truthy j) then Ok None else do r <- side_from_json cur_schema rid origin j; Ok (Some r).
@@ -797,9 +845,7 @@ Definition omap {A B} (f : A -> B) (r : res (option A)) : res (option B) :=
 Definition jq_of (j : jv) : option q := match as_num j with Ok x => Some x | Err _ => None end.
 Definition jstrs (j : jv) : option (list (list Z)) := match str_list j with Ok x => Some x | Err _ => None end.
 
-Definition run_C11 (fn : Z) (l : list Z) : list Z :=
-  match djv (S (List.length l)) l with
-  | Some (JArr args, []) =>
+Definition run_main (fn : Z) (args : list jv) : list Z :=
     match fn, args with
     | 1, [j] => eOut (omap hmm_to_json (do h <- hmm_from_json j; Ok (Some h)))
     | 2, [j; JStr rid; names; JInt cur] =>
@@ -838,11 +884,30 @@ Definition run_C11 (fn : Z) (l : list Z) : list Z :=
       end
     | 6, [j; JStr rid; origin; JInt cur] =>
       match origin with
-      | JNull => eOut (omap (side_to_json cur None) (side_regen cur rid None j))
-      | JInt n => eOut (omap (side_to_json cur (Some n)) (side_regen cur rid (Some n) j))
+      | JNull => eOut (omap (side_to_json cur) (side_regen cur rid None j))
+      | JInt n => eOut (omap (side_to_json cur) (side_regen cur rid (Some n) j))
       | _ => bad_input
       end
     | _, _ => bad_input
-    end
+    end.
+
+(* the first clause of the property as a decidable specification, evaluated on an implementation
+   output: when the saved JSON j is in SAVED FORM for the present record and settings (the model
+   regenerates it and saves exactly j again - by the codec theorems this holds for every value the
+   modules produce), the implementation must regenerate it and save exactly j again.
+   Verdict [1] satisfied / not applicable, [0] violated. *)
+Definition spec_saved (fn : Z) (model_out : list Z) (j : jv) (impl_out : list Z) : list Z :=
+  let fixed := 0 :: 1 :: ejv j ++ (if fn =? 3 then [1] else []) in
+  if list_eqb Z.eqb model_out fixed then [if list_eqb Z.eqb impl_out model_out then 1 else 0] else [1].
+
+(* fn 1-6: the model's answer; fn 11-16: payload ++ implementation output -> spec verdict *)
+Definition run_C11 (fn : Z) (l : list Z) : list Z :=
+  match djv (S (List.length l)) l with
+  | Some (JArr args, rest) =>
+    if fn <? 10 then match rest with [] => run_main fn args | _ => bad_input end
+    else match args with
+         | j :: _ => spec_saved (fn - 10) (run_main (fn - 10) args) j rest
+         | [] => bad_input
+         end
   | _ => bad_input
   end.
